@@ -403,6 +403,17 @@ def call_ext(it: Any, f: ExtV, args: List[Any], kwargs: Dict[str, Any], node: An
     if name == "inspect.signature" and args and isinstance(args[0], ExtV):
         sig = torchsig.SIGS.get(args[0].name, [])
         return Obj("inspect.Signature", attrs={"parameters": {n: Obj("inspect.Parameter", attrs={"name": n}, open_attrs=False) for n, _ in sig}}, open_attrs=False)
+    if name == "collections.deque":
+        seq = it.concrete_iter(args[0]) if args else []
+        if seq is None:
+            raise A.Unsupported("deque of a non-concrete iterable")
+        return list(seq)
+    if name == "copy.copy" and args and isinstance(args[0], Obj) and args[0].term is None:
+        src = args[0]
+        c = Obj(src.cls_name, cls=src.cls, open_attrs=src.open_attrs)
+        c.attrs.update(src.attrs)  # shallow: attribute values (lists, children, tensors) are shared
+        it.log("call", node, callee=name, args=args, kwargs=kwargs, bound={"x": src}, result=A._term(c))
+        return c
     if name == "copy.deepcopy" or name == "copy.copy":
         src = args[0]
         term = T("call", (name, (("x", A._term(src)),)))
